@@ -54,11 +54,11 @@ def build_dist(rec):
     if fam == "gauss_sqrtprec_lower":
         return D.Gaussian(mean, sqrtprec=np.eye(n) + np.tril(B))
     if fam == "gauss_sqrtprec_full":
-        return D.Gaussian(mean, sqrtprec=np.eye(n) + B)
+        return D.Gaussian(mean, sqrtprec=np.eye(n) + B / max(1.0, n / 20.0) ** 0.5)    # (non-symmetric: spectral radius of B kept < 1/2)
     if fam == "gauss_sqrtcov_upper":
         return D.Gaussian(mean, sqrtcov=np.eye(n) + np.triu(B))
     if fam == "gauss_sqrtcov_full":
-        return D.Gaussian(mean, sqrtcov=np.eye(n) + B)
+        return D.Gaussian(mean, sqrtcov=np.eye(n) + B / max(1.0, n / 20.0) ** 0.5)
     if fam == "gauss_geom_cont1d":
         import cuqi
         return D.Gaussian(mean, 0.7, geometry=cuqi.geometry.Continuous1D(np.linspace(0, 1, n)))
